@@ -115,6 +115,87 @@ def _index_terms(exprs, limit=400):
     return pool[:limit]
 
 
+def theory_axioms(exprs, max_pairs=60):
+    """Point axioms for the uninterpreted real functions (exp, log, sqrt, tanh,
+    ... : tensor.AXIOMS) and the real power function, generated for exactly
+    the applications that occur in the query (assumed library contracts)."""
+    from .tensor import AXIOMS
+
+    seen = set()
+    apps = {}
+    stack = list(exprs)
+    while stack:
+        e = stack.pop()
+        k = e.get_id()
+        if k in seen:
+            continue
+        seen.add(k)
+        if z3.is_quantifier(e):
+            stack.append(e.body())
+            continue
+        if z3.is_app(e):
+            if e.decl().kind() == z3.Z3_OP_UNINTERPRETED and e.num_args() > 0:
+                nm = e.decl().name()
+                if nm in AXIOMS or nm == "pow":
+                    apps.setdefault(nm, []).append(e)
+            stack.extend(e.children())
+    out = []
+    for nm, lst in apps.items():
+        if nm == "pow":
+            for y in lst:
+                x, a = y.arg(0), y.arg(1)
+                if any(z3.is_var(c) for c in (x, a)) or _has_var(y):
+                    continue
+                out += [z3.Implies(x > 0, y > 0), z3.Implies(z3.And(x == 0, a > 0), y == 0),
+                        z3.Implies(z3.And(x >= 0, a > 0), y >= 0), z3.Implies(a == 0, y == 1),
+                        z3.Implies(a == 1, y == x), z3.Implies(x == 1, y == 1)]
+            ground = [y for y in lst if not _has_var(y)]
+            if len(ground) <= max_pairs:
+                for i in range(len(ground)):
+                    for j in range(i + 1, len(ground)):
+                        y1, y2 = ground[i], ground[j]
+                        if not z3.eq(y1.arg(1), y2.arg(1)):
+                            continue
+                        x1, x2, a = y1.arg(0), y2.arg(0), y1.arg(1)
+                        out += [z3.Implies(z3.And(x1 >= 0, x2 >= 0, a >= 0, x1 <= x2), y1 <= y2),
+                                z3.Implies(z3.And(x1 >= 0, x2 >= 0, a >= 0, x2 <= x1), y2 <= y1),
+                                z3.Implies(z3.And(x1 > 0, x2 > 0, a <= 0, x1 <= x2), y1 >= y2),
+                                z3.Implies(z3.And(x1 > 0, x2 > 0, a <= 0, x2 <= x1), y2 >= y1)]
+            continue
+        ax = AXIOMS[nm]
+        ground = [y for y in lst if not _has_var(y)]
+        for y in ground:
+            out += list(ax(y.arg(0), y))
+        mono = MONOTONE.get(nm)
+        if mono and len(ground) <= max_pairs:
+            for i in range(len(ground)):
+                for j in range(i + 1, len(ground)):
+                    y1, y2 = ground[i], ground[j]
+                    x1, x2 = y1.arg(0), y2.arg(0)
+                    out += [z3.Implies(x1 <= x2, y1 <= y2), z3.Implies(x2 <= x1, y2 <= y1)]
+                    if mono == "strict":
+                        out += [z3.Implies(x1 < x2, y1 < y2), z3.Implies(x2 < x1, y2 < y1)]
+    return out
+
+
+MONOTONE = {"exp": "strict", "log": None, "tanh": "strict", "sigmoid": "strict", "softplus": "strict", "sqrt": None}
+
+
+def _has_var(e):
+    seen = set()
+    stack = [e]
+    while stack:
+        x = stack.pop()
+        if x.get_id() in seen:
+            continue
+        seen.add(x.get_id())
+        if z3.is_var(x):
+            return True
+        if z3.is_app(x):
+            stack.extend(x.children())
+    return False
+
+
 def _instantiate(qfacts, pool_by_sort, cap=4000):
     out = []
     for q in qfacts:
@@ -207,6 +288,8 @@ def prove(hyps, qfacts, goal, extra_pool=(), timeout_ms=None, want_model=True,
                 grew = True
         if grew:
             ground = _instantiate(qfacts, by_sort)
+    theory = theory_axioms(base + ground)
+    ground = ground + theory
     s = z3.Solver()
     s.set("timeout", timeout_ms)
     for h in base:
@@ -268,6 +351,8 @@ def feasible(hyps, timeout_ms=None):
     s = z3.Solver()
     s.set("timeout", timeout_ms or BRANCH_TIMEOUT_MS)
     for h in hyps:
+        s.add(h)
+    for h in theory_axioms(hyps):
         s.add(h)
     STATS.branch_queries += 1
     t0 = time.time()
@@ -371,18 +456,37 @@ class PathState:
         return v != "unsat"
 
     # -- obligations ----------------------------------------------------
-    def oblige(self, name, goal, assume_after=True, extra_pool=()):
+    def oblige(self, name, goal, assume_after=True, extra_pool=(), using=None):
+        """using: optional list of name prefixes; only quantified facts whose
+        name starts with one of them are handed to the solver (hiding
+        hypotheses is always sound and keeps queries small)."""
         if self.suppress:
             return
+        qf = self.qfacts
+        if using is not None:
+            qf = [q for q in self.qfacts if any(q.name.startswith(u) for u in using)]
         z = as_bool(goal)
         z = z3.simplify(z)
         if z3.is_true(z):
             self.results.append(ObligationResult(name, "discharged", "syntactic", 0.0))
             return
+        is_canary = any(part.startswith("canary") for part in name.split("."))
         verdict, backend, dt, model, smt2 = prove(
-            self.pc, self.qfacts, z, extra_pool=list(self.pool) + list(extra_pool),
-            both=self.mode_both,
+            self.pc, qf, z, extra_pool=list(self.pool) + list(extra_pool),
+            both=self.mode_both and not is_canary, quick=is_canary,
         )
+        if verdict != "unsat" and self.sums and not is_canary:
+            from . import tensor as T
+
+            if T.close_sums(self, prove):
+                verdict, backend, dt2, model, smt2 = prove(
+                    self.pc, qf, z, extra_pool=list(self.pool) + list(extra_pool), both=self.mode_both)
+                dt += dt2
+        if is_canary and verdict in ("sat", "unknown"):
+            # a canary only has to be refutable: the hypotheses' ground
+            # instances are consistent with its negation
+            self.results.append(ObligationResult(name, "failed", backend + "-ground", dt, detail="canary refuted (as required)", model={}))
+            return
         if verdict == "unsat":
             self.results.append(ObligationResult(name, "discharged", backend, dt))
         elif verdict == "sat":
@@ -399,11 +503,11 @@ class PathState:
         if assume_after:
             self.pc.append(z)
 
-    def oblige_forall(self, name, sorts, fn, hint="sk"):
+    def oblige_forall(self, name, sorts, fn, hint="sk", using=None):
         """forall-goal, Skolemised."""
         sks = [self.fresh(f"{hint}{i}", s) for i, s in enumerate(sorts)]
         goal = as_bool(fn(*sks))
-        self.oblige(name, goal, assume_after=False, extra_pool=[t for t in sks if t.sort() == INT])
+        self.oblige(name, goal, assume_after=False, extra_pool=[t for t in sks if t.sort() == INT], using=using)
         # afterwards the universally quantified statement may be assumed
         self.assume_forall(sorts, fn, name)
 
@@ -429,6 +533,9 @@ class PathState:
         out = {}
         for name, c in self.inputs.items():
             try:
+                if isinstance(c, tuple) and c[0] == "tensor":
+                    out[name] = self._tensor_model(model, c[1], c[2])
+                    continue
                 v = model.eval(c, model_completion=True)
                 out[name] = str(v)
             except z3.Z3Exception:
@@ -441,6 +548,24 @@ class PathState:
         except z3.Z3Exception:
             pass
         return out
+
+    def _tensor_model(self, model, f, shape, cap=4):
+        import itertools
+
+        dims = []
+        for d in shape:
+            if isinstance(d, int):
+                dims.append(d)
+            else:
+                v = model.eval(to_z3(d), model_completion=True)
+                try:
+                    dims.append(v.as_long())
+                except Exception:
+                    dims.append(cap)
+        ent = {}
+        for idx in itertools.product(*[range(max(0, min(d, cap))) for d in dims]):
+            ent[",".join(map(str, idx))] = str(model.eval(f(*[z3.IntVal(i) for i in idx]), model_completion=True))
+        return dict(shape=dims, entries=ent)
 
     def pc_sat(self):
         return feasible(self.pc, timeout_ms=5000)
